@@ -14,7 +14,7 @@ recorded.
 * Scottish rule: `scotland_record_monotone` (whole count, epilogue included), `scotland_elected_le_seats` below.
 
 * meek / warren (strict rankings): `meek_record_forward` — whatever the count returns for a case inside `caseOK`, its record is
-  forward-only (`DroopProofs/MeekMon.lean`).
+  forward-only and its log extends the log it started with (`DroopProofs/MeekMon.lean`).
 
 QPQ's restart ("un-elect") is outside these theorems: the QPQ record is judged by `okC09` on both records only.
 -/
@@ -44,15 +44,17 @@ theorem cfer_record_monotone (p : Nat) (batch : Bool) (s0 t : St Int) (hinit : I
 /-- meek / warren: the record of whatever the count returns is forward-only (every case with strict rankings inside `caseOK`,
     every precision, omega and `defeat_batch` setting) -/
 theorem meek_record_forward (p : Nat) (c : Case) (hr : c.rule = "meek" ∨ c.rule = "warren") (hok : caseOK c = true)
-    (t : St Int) (h : runRuleSt (fixedArith p) c = some t) : Mon t := by
+    (t : St Int) (h : runRuleSt (fixedArith p) c = some t) : Mon t ∧ Ext (initState (fixedArith p) c) t := by
   have hk := caseOK_iff c hok
   have hm : methodOf c.rule = .meek := by rcases hr with hr | hr <;> rw [hr] <;> rfl
   have h0 := initState_minit (fixedArith p) (fixed_lawful p) c hm hk
   unfold runRuleSt at h
   rcases hr with hr | hr
   · simp only [runRuleSt', hr] at h
-    exact meek_record_monotone (fixedArith p) (fixed_lawful p) rfl _ _ _ t h0 h
+    exact ⟨meek_record_monotone (fixedArith p) (fixed_lawful p) rfl _ _ _ t h0 h,
+      meek_record_appendOnly (fixedArith p) (fixed_lawful p) rfl _ _ _ t h0 h⟩
   · simp only [runRuleSt', hr] at h
-    exact meek_record_monotone (fixedArith p) (fixed_lawful p) rfl _ _ _ t h0 h
+    exact ⟨meek_record_monotone (fixedArith p) (fixed_lawful p) rfl _ _ _ t h0 h,
+      meek_record_appendOnly (fixedArith p) (fixed_lawful p) rfl _ _ _ t h0 h⟩
 
 end Droop.C09
